@@ -5,11 +5,12 @@ semantics there) compute from the deep observation of the input — outcome incl
 So the heap model adds objects, addresses and aliasing to the pure model without changing what is computed, and the
 header of the returned OBJECT is the input's header plus the numbered entry of `description_entry`.
 
-Covered: FlipPolarity, the seven arity-`k` substitutions (xor, or, majority, all-equal, not-all-equal, exactly-one,
-linear with its four aliases), if-then-else, variable compression.  `refines_partial`: FormulaLifting (its selector
-constraints read the variable count of the half-built result) and Shuffle are not covered by the refinement; FRAME,
-FRESHNESS and NON-INTERFERENCE (Props/C19/Heap.lean) cover them, and their clause content is compared by the
-correspondence suites (C05 `sub.lift`, C09 `shuf`, C19 `heap`).
+Covered: every transformation of `Heap.Tr` — FlipPolarity (`flip_refines`), the seven arity-`k` substitutions incl. the
+linear one with its four aliases (`substitution_refines`), if-then-else (`ite_refines`), variable compression with a
+graph object of the caller (`compress_refines`), FormulaLifting (`lift_refines`), Shuffle with fixed / explicit
+arguments (`shuffle_refines`).  For the transformations that name the new variables after the input's labels the
+hypothesis is that the input yields one label per variable (C11 `labels_aligned`); a derived label that `new_block`
+refuses makes the call raise exactly that exception (first disjunct) — no such label exists in the harness runs.
 -/
 import Lemmas.HeapRefineTr
 namespace Cnfgen.C19
@@ -245,6 +246,77 @@ theorem compress_refines (cfg : Cfg) (s : Store) (f b : Addr) (fn : Int) (F : Sn
       unfold Refines
       simp only [Snap.cnf]
       cases hr : Subst.run ⟨B.r, []⟩ F.numvar (if fn = 0 then Subst.applyxor B else Subst.applymaj B) F.clauses with
+      | error e => simp only [hr] at hb ⊢; exact hb
+      | ok G =>
+        simp only [hr] at hb ⊢
+        obtain ⟨r, e1, e2⟩ := hb
+        exact ⟨r, _, e1, e2, rfl, rfl⟩
+
+/-- the two `new_block` calls per original variable of FormulaLifting -/
+def liftGroupActs (k : Int) (labels : List String) : List Act :=
+  labels.flatMap (fun nm => [.newGroup (.block [k] (some (wrapLabel "X_" nm "^{}"))),
+                             .newGroup (.block [k] (some (wrapLabel "Y_" nm "^{}")))])
+
+theorem liftGroupActs_length (k : Int) : ∀ labels : List String, (liftGroupActs k labels).length = 2 * labels.length
+  | [] => rfl
+  | a :: as => by
+    have ih := liftGroupActs_length k as
+    simp only [liftGroupActs, List.flatMap_cons, List.length_append, List.length_cons, List.length_nil] at ih ⊢
+    omega
+
+/-- T-C19.R6 FormulaLifting: the blocks, the selector constraints (which read the variable count of the half-built
+result and do not raise it), the lifted clauses -/
+theorem lift_refines (cfg : Cfg) (s : Store) (f : Addr) (F : Snap) (k : Int) (labels : List String)
+    (hF : snap s f = some F) (hl : inputLabels s f = .ok labels) (hn : labels.length = F.numvar) :
+    (∃ e, runActsPure F (liftGroupActs k labels) ⟨0, [], F.header, []⟩ = .error e ∧ 1 ≤ k ∧
+        ((Tr.lift k).apply cfg s f).2 = .error e) ∨
+      Refines F (Header.descr (.lift k)) (Subst.lifting F.cnf k) ((Tr.lift k).apply cfg s f) := by
+  unfold Tr.apply Subst.lifting
+  simp only [hF]
+  by_cases hk : k < 1
+  · right; rw [if_pos hk, if_pos hk]; exact rfl
+  · rw [if_neg hk, if_neg hk]
+    simp only [hl]
+    have hcov : ∀ a ∈ [Act.copyHeader f] ++ liftGroupActs k labels ++
+        [.describe (Header.descr (.lift k)), .liftSelectors k.toNat, .substFrom f (Subst.lift k.toNat)],
+        a.Covered f := by
+      intro a ha
+      simp only [List.mem_append, List.mem_cons, List.mem_nil_iff, or_false, liftGroupActs, List.mem_flatMap] at ha
+      rcases ha with (rfl | ⟨nm, _, rfl | rfl⟩) | rfl | rfl | rfl <;> simp [Act.Covered]
+    have hb := build_refines cfg s f F _ hF hcov
+    rw [List.append_assoc, runActsPure_append] at hb
+    simp only [runActsPure, Act.pure, snap0] at hb
+    rw [runActsPure_append] at hb
+    change _ ∨ Refines F _ _ (build cfg s ([Act.copyHeader f] ++ liftGroupActs k labels ++ _))
+    cases hg : runActsPure F (liftGroupActs k labels) ⟨0, [], F.header, []⟩ with
+    | error e =>
+      left
+      simp only [hg] at hb
+      exact ⟨e, rfl, by omega, hb⟩
+    | ok R1 =>
+      right
+      simp only [hg] at hb
+      have hgr := runActsPure_groups F k.toNat (liftGroupActs k labels) _ R1 (by
+        intro a ha
+        simp only [liftGroupActs, List.mem_flatMap, List.mem_cons, List.mem_nil_iff, or_false] at ha
+        obtain ⟨nm, _, rfl | rfl⟩ := ha <;>
+          exact ⟨_, rfl, fun nv gs m g h => newGroup_block_numvar nv gs k _ (by omega) m g h⟩) hg
+      have hlen : (liftGroupActs k labels).length = 2 * F.numvar := by
+        rw [liftGroupActs_length, hn]
+      obtain ⟨h1, h2, h3⟩ := hgr
+      have h1' : R1.numvar = 2 * k.toNat * F.numvar := by
+        rw [h1, hlen, Nat.zero_add, Nat.mul_comm 2 k.toNat, Nat.mul_assoc]
+      have hsel := addLinearAllPure_bounded .eq 1 (selectorLists k.toNat (2 * k.toNat * F.numvar))
+        ⟨2 * k.toNat * F.numvar, [], addDescription F.header (Header.descr (.lift k)), R1.groups⟩
+        (selectorLists_bounded k.toNat F.numvar (by omega))
+      simp only [runActsPure, Act.pure, h1', Snap.cnf, h2, h3] at hb
+      rw [hsel] at hb
+      simp only [List.nil_append, ← selectors_eq] at hb
+      rw [List.append_assoc]
+      unfold Refines
+      simp only [Snap.cnf]
+      cases hr : Subst.run ⟨2 * k.toNat * F.numvar, Subst.selectors k.toNat F.numvar⟩ F.numvar
+          (Subst.lift k.toNat) F.clauses with
       | error e => simp only [hr] at hb ⊢; exact hb
       | ok G =>
         simp only [hr] at hb ⊢
